@@ -14,6 +14,20 @@ use super::Format;
 const HEADER_VERSION: Version = Version::TWO;
 pub const HEADER_OFFSET: usize = size_of::<HeaderInner>();
 
+/// Decodes header bytes: (header_version, vec_version, computed_version, stamp, format byte).
+#[cfg(anydb_verif)]
+pub fn verif_header_from_bytes(bytes: &[u8]) -> Result<(u32, u32, u32, u64, u8)> {
+    use crate::Bytes;
+    let h = HeaderInner::verif_from_bytes(bytes)?;
+    Ok((
+        u32::from(h.header_version),
+        u32::from(h.vec_version),
+        u32::from(h.computed_version),
+        u64::from(h.stamp),
+        h.format.to_bytes()[0],
+    ))
+}
+
 #[derive(Debug, Clone)]
 pub struct Header {
     inner: Arc<RwLock<HeaderInner>>,
